@@ -696,6 +696,8 @@ def plan_C18(ctx):
                 helpers += C01_HELPERS
             p = gen.Program("p%04d" % n, body, helpers=helpers, named_result=(n % 2 == 0), family="pan")
             p.driver = gen.panic_driver(p.name, K)
+            p.twin_driver = gen.panic_driver("T" + p.name, K)
+            p.twin_key = "c18"
             n += 1
             corp.add(p)
         return {"programs_with_one_panic_site": n, "panic_sites": ["panic(symbolic int)", "integer division by a symbolic zero", "index out of range (symbolic index)", "nil map store", "nil dereference", "panic(string)", "panic inside a delegate (YieldFrom)"]}
@@ -763,6 +765,7 @@ def plan_C05(ctx):
             twin = gen.to_range_form(body, gen.Ctr())
             tl = ["func %sR%s (_ Iter[int]) {" % (p.name, gen.SIG)] + gen.p_stmts(twin, 1) + ["\treturn", "}", ""]
             p.helpers = gen.C05_HELPERS + "\n" + "\n".join(tl) + "\n" + gen.eq_driver(p.name, p.name + "R", K)
+            p.twin_key = "c05"
             corp.add(p)
         return {"delegating_programs": n, "directed": len(directed_c05()), "delegates": gen.DELEGATES,
                 "forms": ["statement position", "inside loops / switch cases", "for-post and for-init", "delegate advanced by hand before delegation", "argument wrapped in Eff", "recursion R1(n, a) with symbolic depth n <= 3", "infinite delegate"]}
